@@ -64,8 +64,8 @@ func (c *c18Case) fs() []FSEntry {
 	}
 	// the same two directories reached through links of their own (a directory argument may be spelled through one)
 	fs = append(fs, FSEntry{Path: "la", Link: "a"}, FSEntry{Path: "lb", Link: "b"})
-	if c.stale && c.outf == "out/res.txt" {
-		fs = append(fs, FSEntry{Path: "out/res.txt", Text: strings.Repeat("stale report line from an earlier run => must not survive\n", 400)})
+	if c.stale && strings.HasPrefix(c.outf, "out/res") {
+		fs = append(fs, FSEntry{Path: c.outf, Text: strings.Repeat("stale report line from an earlier run => must not survive\n", 400)})
 	}
 	return fs
 }
@@ -434,6 +434,10 @@ func c18Build(seed uint64, i int, corpus []CorpusDir, faulty bool) *c18Case {
 	if r.chance(1, 2) || faulty {
 		c.outf = "out/res.txt"
 		c.stale = r.chance(1, 2)
+		if !faulty && r.chance(1, 2) {
+			// the name of the target says nothing about its content: whatever its extension, it gets the bytes of stdout
+			c.outf = pick(r, []string{"out/res.csv", "out/res.md", "out/res.dot", "out/res.json", "out/res", "out/res.MD", "out/res.yaml", "out/res.txt.bak"})
+		}
 	}
 	if faulty {
 		switch k := r.intn(6); {
@@ -496,7 +500,7 @@ func runC18(tier string, seed uint64) int {
 		if res[1].Trace != nil && len(res[1].Trace.Events) > 0 {
 			o.libErr = !res[1].Trace.Events[0].OK
 		}
-		_, o.written = res[0].Files["out/res.txt"]
+		_, o.written = res[0].Files[c.outf]
 		o.clause, o.why = c18Judge(res, c.outf, faulty, c.badFmt())
 		if o.clause == "stdout" || o.clause == "infos" {
 			// keep C08 out of C18: CLI and library are different programs, equal seeds do not mean
